@@ -159,7 +159,8 @@ def gen_relaxing_case(rng, big=False):
 def gen_zerodiv_case(rng):
     """FAILING ROWS THAT RAISE AT t = 0: a rate law `x / k` with the scanned `k` being 0 in some rows.  The scan workers
     catch ZeroDivisionError to turn such a row into a NaN placeholder (`except ZeroDivisionError: res = Result(...)`);
-    the expression language of the Lean model has no division, so this stratum has no model side (oracle only)."""
+    the expression language of the Lean model has no division, so this stratum has no model side (oracle only); the
+    same branch of the workers is reached WITH a model side by the toy integrator's raising constructor (`zd_rows`)."""
     n = rng.randint(1, 2)
     vars_ = [[f"x{i}", {"v": rng.choice(VALS)}] for i in range(n)]
     pars = [["kin", {"v": rng.choice(["1", "2", "1/2"])}], ["km", {"v": rng.choice(["1", "2", "1/2"])}]]
@@ -234,6 +235,9 @@ def gen_case(rng, tier_thorough=False, kind=None, big=False):
         r = rng.random()
         nfail = 0 if r < 0.45 else (nrows if r > 0.92 else rng.randint(1, max(1, nrows // 2)))
         case["fail_rows"] = sorted(rng.sample(range(nrows), min(nfail, nrows)))
+        # rows whose simulator cannot even be built: ZeroDivisionError inside the worker's `try`
+        if rng.random() < 0.25:
+            case["zd_rows"] = sorted(rng.sample(range(nrows), rng.randint(1, max(1, nrows // 2))))
     else:
         case["cfg"] = None
         case["fail_rows"] = []
@@ -249,6 +253,7 @@ def gen_mcscan(rng):
         case["cfg"]["fail"] = []
     case["kind"] = "mcscan"
     case["cache"] = None
+    case.pop("zd_rows", None)
     case["rows"] = [[i, r] for i, (_, r) in enumerate(case["rows"][:3])]
     case["order"] = []
     case["fail_rows"] = []
@@ -336,6 +341,8 @@ def finalize(case):
     try:
         keys = {fail_key(case, i) for i in range(len(case["rows"]))}  # also guards exactness at t=0
         case["cfg"]["fail"] = sorted({fexpr.rat_str(fail_key(case, i)) for i in case["fail_rows"]}, key=Fraction)
+        if case.get("zd_rows"):
+            case["cfg"]["zerodiv"] = sorted({fexpr.rat_str(fail_key(case, i)) for i in case["zd_rows"]}, key=Fraction)
         del keys
     except fexpr.Inexact:
         return False
@@ -794,6 +801,8 @@ def reduce_nan(obs):
 
 
 def modes_for(case, rng, thorough):
+    if case.get("coverage") and not thorough:
+        return [["seq"], ["par", 2], ["mc", 2]]
     if case["kind"] == "mcscan":
         return [["mc", w] for w in ((1, 2, 3, 16) if thorough else (rng.choice([1, 2]), rng.choice([3, 16])))]
     if thorough:
@@ -883,7 +892,38 @@ def shape(case):
             f"-ia{min(ia, 2)}-{'scanvar' if scan_var else 'scanpar'}-{'euler' if case['cfg'] else 'lsoda'}"
             f"-fail{min(len(case.get('fail_rows', [])), 2)}{'-tol' if (case['cfg'] or {}).get('tol') else ''}"
             f"{'-readout' if c.get('readouts') else ''}{'-surrogate' if c.get('surs') else ''}{'-' + label_kind(case)}"
-            f"{'-cache' + case['cache'] if case.get('cache') else ''}")
+            f"{'-cache' + case['cache'] if case.get('cache') else ''}{'-zdctor' if case.get('zd_rows') else ''}")
+
+
+DRIVER_NAME = {"ss": "steady_state", "tc": "time_course", "proto": "protocol", "ptc": "protocol_time_course",
+               "mcscan": "scan_steady_state"}
+
+
+def count_driver(ctx, case, mode, S):
+    """per public driver (scan.* x4, mc.* x5): how often it ran, and with which of the features the property
+    quantifies over - failing rows, repeated labels, an initial-value column, more / not more rows than processes"""
+    d = ("mc." if mode[0] == "mc" else "scan.") + DRIVER_NAME[case["kind"]]
+    vs = {k for k, _ in case["content"]["vars"]}
+    nanrow = any(e.get("nan") for _, e in S.get("res", [])) or any(
+        all(v == "nan" for _, v in cols) for _, cols in S.get("vars", []))
+    feats = ["runs"]
+    if case.get("fail_rows") or case.get("zerodiv_rows") or case.get("zd_rows") or nanrow:
+        feats.append("failing-rows")
+    if len({l for l, _ in case["rows"]}) < len(case["rows"]):
+        feats.append("repeated-labels")
+    if any(c in vs for c in case["cols"]) or any(c in vs for c in (case.get("inner") or {}).get("cols", [])):
+        feats.append("initial-value-column")
+    if mode[0] == "seq":
+        feats.append("sequential")
+    else:
+        feats.append("rows>processes" if len(case["rows"]) > mode[1] else "rows<=processes")
+    if case.get("cache"):
+        feats.append("cache")
+    if case.get("y0"):
+        feats.append("y0")
+    for f in feats:
+        k = f"driver {d}: {f}"
+        ctx.hist[k] = ctx.hist.get(k, 0) + 1
 
 
 def judge_case(ctx, case, modes, S, Rs, Ms):
@@ -898,6 +938,7 @@ def judge_case(ctx, case, modes, S, Rs, Ms):
             ctx.hist[k] = ctx.hist.get(k, 0) + 1
     for mode, R, M in zip(modes, Rs, Ms):
         sub = dict(case, modes=[mode])
+        count_driver(ctx, case, mode, S)
         Rn = L.snap(S, R, TOL)
         fid = classify(case, mode, Rn, S)
         Mj = None
@@ -1158,9 +1199,26 @@ def corpus():
     for kind, extra in (("ss", {}), ("tc", {"tps": ["0", "1/2", "1"]})):
         out.append({"content": zd, "y0": None, "cols": ["km"], "rows": [[0, ["1"]], [1, ["0"]], [2, ["2"]]], "kind": kind,
                     "cfg": {"nss": 3, "h": "1/4", "fail": []}, "fail_rows": [], "order": [], "zerodiv_rows": [1], **extra})
+    # coverage corpus: every simulation driver sees, in every run, a table with REPEATED labels, an initial-value
+    # column, a failing row and more rows (5) than the 2 processes of the quick tier's pool modes
+    for kind, extra in (("ss", {}), ("tc", {"tps": ["1/4", "1/2"]}),
+                        ("proto", {"proto": [["1/2", [["k", "1/2"]]], ["1", [["k", "1"]]]], "steps": 2}),
+                        ("ptc", {"proto": [["1/2", [["k", "1/2"]]], ["1", [["k", "1"]]]], "tps": ["1/4", "3/4"]})):
+        out.append({"content": ia_model_plus(), "y0": None, "cols": ["x", "k0"], "kind": kind,
+                    "rows": [[l, r] for l, r in zip(["a", "b", "a", "c", "b"], [["1", "1"], ["2", "1/2"], ["3", "1"], ["1/2", "2"], ["3/2", "1"]])],
+                    "cfg": {"nss": 2, "h": "1/4", "fail": []}, "fail_rows": [3], "order": [4, 0], "coverage": True, **extra})
     for c in out:
-        assert finalize(c)
+        assert finalize(c), c
     return out
+
+
+def ia_model_plus():
+    """x with a parameter computed from its initial value, a second plain parameter `k` for protocols"""
+    return {"vars": [["x", {"v": "1"}]],
+            "pars": [["k0", {"v": "1"}], ["k", {"v": "1/2"}], ["q", {"ia": {"args": ["x"], "e": ["*", ["c", "2"], ["a", 0]]}}]],
+            "derived": [], "surs": [], "readouts": [],
+            "rxns": [["vin", {"args": ["k0", "q"], "e": ["*", ["a", 0], ["a", 1]], "st": [["x", {"c": "1"}]]}],
+                     ["v", {"args": ["k", "x"], "e": ["*", ["a", 0], ["a", 1]], "st": [["x", {"c": "-1"}]]}]]}
 
 
 def replay(ctx, rp):
